@@ -40,6 +40,16 @@ EXTRA = {  # seeds that also violate a neighbouring property's statement
     'C12_r5_make_btwb_2d_uniform_weight_shortcut': ['C07'],
     'C19_r5_loess_kernels_cached_across_calls': ['C03'],
     'C03_r5_extended_range_fitter_reused_by_added_count': ['C17'],
+    'C01_r6_adaptive_minmax_dtype_not_restored_after_raise': ['C03', 'C15'],
+    'C03_r6_collab_pls_dtype_not_restored_after_raise': ['C01'],
+    'C05_r6_failed_first_call_resets_x_but_not_spline_cache': ['C03'],
+    'C06_r6_setup_whittaker_2d_ravel_order_k': ['C20', 'C16'],
+    'C20_r6_setup_whittaker_2d_ravel_order_a': ['C06', 'C16'],
+    'C08_r6_return_results_skips_non_1d_sort_keys': ['C02'],
+    'C10_r6_btb_bty_forward_only_interval_scan_inlined': ['C12', 'C07'],
+    'C12_r6_solve_pspline_eps_jitter_on_btwb_diagonal': ['C07'],
+    'C15_r6_adaptive_minmax_check_finite_not_restored': ['C03', 'C01'],
+    'C09_r6_pspline_airpls_early_exit_writes_zero_tol': ['C01'],
 }
 
 
